@@ -146,7 +146,50 @@ let sem_natural (e : Sexp.t) : Sexp.t =
     end
   | _ -> bad "sem_natural: %s" (to_string e)
 
+(* ---------- sem_is_regular ----------
+   input (P verdict).  An independent, direct OCaml transcription of the documented definition of
+   regular rules (/repo/res/manual/src/analyze.md, "Regularity") - deliberately not the extracted
+   model - is evaluated on P; the implementation's verdict must be its value.  A disagreement
+   names the first rule on which the verdict and the definition differ. *)
+let rec doc_has_sym = function
+  | TPre (PSym _) | TPre PInf | TPre PSup -> true
+  | TPre (PNum _) | TVar _ -> false
+  | TUn t -> doc_has_sym t
+  | TBin (_, l, r) -> doc_has_sym l || doc_has_sym r
+let rec doc_only_arith = function
+  | TPre _ | TVar _ -> true
+  | TUn t -> doc_only_arith t
+  | TBin ((AAdd | ASub | AMul), l, r) -> doc_only_arith l && doc_only_arith r
+  | TBin (_, _, _) -> false
+let doc_first = function
+  | TVar _ | TPre _ -> true
+  | t -> doc_only_arith t && not (doc_has_sym t)
+let doc_second = function
+  | TBin (AInterval, t1, t2) -> doc_first t1 && not (doc_has_sym t1) && doc_first t2 && not (doc_has_sym t2)
+  | _ -> false
+let doc_body_item = function
+  | BLit l -> List.for_all doc_first l.latom.aterms
+  | BCmp c -> (doc_first c.clhs && doc_first c.crhs) || (c.crel = AEq && doc_first c.clhs && doc_second c.crhs)
+let doc_head = function
+  | HFalsity -> true
+  | HBasic a | HChoice a -> List.for_all (fun t -> doc_first t || doc_second t) a.aterms
+let doc_rule (r : rule) = doc_head r.rhead && List.for_all doc_body_item r.rbody
+
+let sem_is_regular (e : Sexp.t) : Sexp.t =
+  match e with
+  | L [ p; v ] ->
+    let p = program p and v = boolv v in
+    let expected = List.for_all doc_rule p in
+    if v = expected then L [ A "ok"; A "1" ]
+    else begin
+      let culprit = if v then List.find_opt (fun r -> not (doc_rule r)) p else None in
+      L ([ A "cex"; L [ A "verdict"; of_boolv v ]; L [ A "every-rule-regular-as-documented"; of_boolv expected ] ]
+         @ (match culprit with Some r -> [ L [ A "irregular-rule"; of_rule r ] ] | None -> []))
+    end
+  | _ -> bad "sem_is_regular: %s" (to_string e)
+
 let () =
+  Ops.register "sem_is_regular" sem_is_regular;
   Ops.register "natural" op_natural;
   Ops.register "natural_small" op_natural;
   Ops.register "natural_text" op_natural;
